@@ -11,6 +11,8 @@ import SkyllhModel.Model.LLH
 import SkyllhModel.Model.Grad
 import SkyllhModel.Model.ParamLayout
 import SkyllhModel.Model.GradState
+import SkyllhModel.Model.GradMapR7
+import SkyllhModel.Proofs.GradMapR7
 import SkyllhModel.Proofs.RealScalar
 import SkyllhModel.Generated.C02
 import Mathlib.Analysis.SpecialFunctions.Log.Deriv
@@ -2379,3 +2381,234 @@ with gradients `5, 7` -/
 theorem c02_pdf_product_swapped_differs :
     productGrad true true (2 : ℝ) 3 5 7 = 29 ∧ (2 : ℝ) * 5 + 3 * 7 ≠ 29 := by
   constructor <;> norm_num [productGrad]
+
+/-! ## Round 7: the consumers' bookkeeping as coded (`Model/GradMapR7.lean`, proofs in `Proofs/GradMapR7.lean`)
+
+`SignalMultiDimGridPDFSet.get_pd` and `SplinedI3EnergySigSetOverBkgPDFRatio.get_gradient` do not compute the sum
+`Σ_n [gp_n = p+1] d_n` (`Grad.locToFit`, the rule the analytic theorems are about): they loop over the local
+interpolation parameters, skip, leave early with the whole local array when *all* sources carry the fit parameter, and
+otherwise **overwrite** the entries selected by `TrialDataManager.get_values_mask_for_source_mask`. -/
+
+open GradMap in
+/-- `get_values_mask_for_source_mask` (loop of `|=` over the selected source indices) selects value `v` iff the source
+of `v` is selected — for every source mask of the right length, every `src_evt_idxs` (sources without values, values
+of unknown sources, no values at all). -/
+theorem c02_values_mask_code_eq_spec (nSrc : ℕ) (srcMask : List Bool) (srcIdx : List ℕ)
+    (h : srcMask.length = nSrc) :
+    valuesMaskCode nSrc srcMask srcIdx = some (valuesMaskSpec srcMask srcIdx) :=
+  C02R7.valuesMaskCode_eq_spec nSrc srcMask srcIdx h
+
+open GradMap in
+/-- the IndexError of the boolean indexing is exactly the length mismatch -/
+theorem c02_values_mask_raises_iff (nSrc : ℕ) (srcMask : List Bool) (srcIdx : List ℕ) :
+    valuesMaskCode nSrc srcMask srcIdx = none ↔ srcMask.length ≠ nSrc := by
+  constructor
+  · intro h hlen
+    rw [C02R7.valuesMaskCode_eq_spec nSrc srcMask srcIdx hlen] at h
+    exact absurd h (by simp)
+  · exact C02R7.valuesMaskCode_eq_none nSrc srcMask srcIdx
+
+example : GradMap.valuesMaskCode 3 [true, false, true] [0, 0, 1, 2, 2, 1] = some [true, true, false, true, true, false] := by
+  decide
+
+open GradMap in
+/-- **The loop of both consumers, for every list of local parameters**: legal shapes and at most one carrier per source
+⇒ no exception, and entry `v` of the returned array is the local gradient entry of the carrier for the source of `v`
+(`pickLast`; the start value where there is none) — through skip, early exit and masked overwrite. -/
+theorem c02_interp_loop_pointwise {F : Type} (nSrc : ℕ) (srcIdx : List ℕ) (p : ℕ) (hidx : ∀ s ∈ srcIdx, s < nSrc)
+    (pars : List (LocalPar F)) (acc : List F) (c : Bool)
+    (hsh : C02R7.Shapes nSrc srcIdx.length pars) (hacc : acc.length = srcIdx.length)
+    (hu : ∀ s, s < nSrc → C02R7.UniqueAt p s pars) :
+    ∃ r c', interpLoop nSrc srcIdx p pars acc c = some (r, c') ∧ r.length = srcIdx.length ∧
+      ∀ v s, srcIdx[v]? = some s → r[v]? = pickLast p s v pars acc[v]? :=
+  C02R7.interpLoop_pointwise nSrc srcIdx p hidx pars acc c hsh hacc hu
+
+open GradMap in
+/-- the key of fit parameter `p` is in the dictionary of `get_pd` iff some local parameter of the PDF set carries `p`
+for some source -/
+theorem c02_interp_loop_key_iff_carrier {F : Type} (nSrc : ℕ) (srcIdx : List ℕ) (p : ℕ) (pars : List (LocalPar F))
+    (acc r : List F) (c' : Bool) (h : interpLoop nSrc srcIdx p pars acc false = some (r, c')) :
+    c' = C02R7.anyCarrier p pars := by
+  simpa using C02R7.interpLoop_flag nSrc srcIdx p pars acc false r c' h
+
+open GradMap in
+/-- the selected entry is the consumers' sum `Grad.locToFit` of `c02_interp_grad_mapping` -/
+theorem c02_interp_entry_is_locToFit (p s v : ℕ) (pars : List (LocalPar ℝ)) (gpRow : List ℤ) (dRow : List ℝ)
+    (hd : pars.map (fun lp => lp.grads[v]?) = dRow.map some)
+    (hg : pars.map (carries p s) = gpRow.map (fun g => decide (g = (p : ℤ) + 1)))
+    (hu : C02R7.UniqueAt p s pars) :
+    pickLast p s v pars (some 0) = some (Grad.locToFit gpRow dRow p) :=
+  C02R7.pickLast_eq_locToFit p s v pars gpRow dRow hd hg hu
+
+open ParamLayout in
+/-- **Every well-formed layout gives the uniqueness the overwrite needs**: a source has at most one local name whose
+gpidx is `p+1`. -/
+theorem c02_layout_one_local_name_per_source (L : Layout) (hwf : WellFormed L) (k n n' p : ℕ)
+    (h : gpidxField L k n = (p : ℤ) + 1) (h' : gpidxField L k n' = (p : ℤ) + 1) : n = n' := by
+  have ex : ∀ m, gpidxField L k m = (p : ℤ) + 1 → ∃ g, mapsTo L g k m = true := by
+    intro m hm
+    by_contra hne
+    have hall : ∀ g, mapsTo L g k m = false := by
+      intro g
+      by_contra hg
+      exact hne ⟨g, by simpa using hg⟩
+    exact c02_layout_unmapped L k m hall p hm
+  obtain ⟨g, hg⟩ := ex n h
+  obtain ⟨g', hg'⟩ := ex n' h'
+  have e1 := (c02_layout L hwf g k n hg p).mp h
+  have e2 := (c02_layout L hwf g' k n' hg' p).mp h'
+  have hgg : g = g' := by rw [e1] at e2; exact Option.some.inj e2
+  subst hgg
+  unfold mapsTo at hg hg'
+  cases hL : L[g]? with
+  | none => rw [hL] at hg; simp at hg
+  | some q =>
+    rw [hL] at hg hg'
+    simp only [beq_iff_eq] at hg hg'
+    rw [hg] at hg'
+    exact Option.some.inj hg'
+
+namespace C02
+open ParamLayout GradMap
+
+/-- the local interpolation parameters of a PDF set with the local names `names`, as the recarray of layout `L` for `K`
+sources presents them; `G n` = the local gradient array of name `n` -/
+def layoutPars {F : Type} (L : Layout) (K : ℕ) (names : List ℕ) (G : ℕ → List F) : List (LocalPar F) :=
+  names.map (fun n => { gp := some ((List.range K).map (fun k => gpidxField L k n)), grads := G n })
+
+theorem carries_layoutPar {F : Type} (L : Layout) (K n p s : ℕ) (g : List F) (hs : s < K) :
+    carries p s ({ gp := some ((List.range K).map (fun k => gpidxField L k n)), grads := g } : LocalPar F)
+      = decide (gpidxField L s n = (p : ℤ) + 1) := by
+  unfold carries
+  simp only [List.getElem?_map, List.getElem?_range hs, Option.map_some]
+  by_cases h : gpidxField L s n = (p : ℤ) + 1 <;> simp [h]
+
+end C02
+
+open ParamLayout GradMap in
+theorem c02_layout_unique_carrier {F : Type} (L : Layout) (hwf : WellFormed L) (K : ℕ) (names : List ℕ)
+    (hn : names.Nodup) (G : ℕ → List F) (p s : ℕ) (hs : s < K) :
+    C02R7.UniqueAt p s (C02.layoutPars L K names G) := by
+  unfold C02R7.UniqueAt C02.layoutPars
+  rw [List.pairwise_map]
+  refine List.Pairwise.imp ?_ hn
+  intro n n' hne hc
+  rw [C02.carries_layoutPar L K n p s _ hs, C02.carries_layoutPar L K n' p s _ hs] at hc
+  simp only [decide_eq_true_eq] at hc
+  exact hne (c02_layout_one_local_name_per_source L hwf s n n' p hc.1 hc.2)
+
+open ParamLayout GradMap in
+/-- **The consumers' loop for every parameter layout.** Well-formed layout `L`, `K` sources, a PDF set with distinct
+local names in any order, any `src_evt_idxs` over these sources, local gradient arrays of the right length: for every
+fit parameter `p`, `get_gradient` (the code-shaped loop) does not raise and entry `v` of what it returns is
+`Grad.locToFit` of the source's gpidx row and the local gradient entries — the sum rule that
+`c02_interp_grad_mapping` / `c02_layout_honest_leaf` prove to be the derivative w.r.t. fit parameter `p`. -/
+theorem c02_consumer_loop_for_every_layout (L : Layout) (hwf : WellFormed L) (K : ℕ) (names : List ℕ)
+    (hn : names.Nodup) (G : ℕ → List ℝ) (srcIdx : List ℕ) (hidx : ∀ s ∈ srcIdx, s < K)
+    (hG : ∀ n ∈ names, (G n).length = srcIdx.length) (p : ℕ) :
+    ∃ r, i3Gradient K srcIdx p (C02.layoutPars L K names G) = some r ∧ r.length = srcIdx.length ∧
+      ∀ (v s : ℕ) (dRow : List ℝ), srcIdx[v]? = some s → names.map (fun n => (G n)[v]?) = dRow.map some →
+        r[v]? = some (Grad.locToFit (names.map (fun n => gpidxField L s n)) dRow p) := by
+  have hsh : C02R7.Shapes K srcIdx.length (C02.layoutPars L K names G) := by
+    intro lp hlp
+    unfold C02.layoutPars at hlp
+    obtain ⟨n, hnm, rfl⟩ := List.mem_map.mp hlp
+    refine ⟨?_, hG n hnm⟩
+    intro col hcol
+    simp only [Option.some.injEq] at hcol
+    rw [← hcol]; simp
+  obtain ⟨r, c', hr, hlen, hpt⟩ := C02R7.interpLoop_pointwise K srcIdx p hidx (C02.layoutPars L K names G)
+    (zeros srcIdx.length) false hsh (by simp [zeros])
+    (fun s hs => c02_layout_unique_carrier L hwf K names hn G p s hs)
+  refine ⟨r, ?_, hlen, ?_⟩
+  · unfold i3Gradient; rw [hr]; rfl
+  · intro v s dRow hv hd
+    have hs : s < K := hidx s (List.mem_of_getElem? hv)
+    have hvlt : v < srcIdx.length := (List.getElem?_eq_some_iff.mp hv).1
+    rw [hpt v s hv]
+    have hz : (zeros (F := ℝ) srcIdx.length)[v]? = some 0 := by
+      unfold zeros
+      rw [List.getElem?_replicate]; simp [hvlt]
+    rw [hz]
+    apply C02R7.pickLast_eq_locToFit
+    · unfold C02.layoutPars; rw [List.map_map]; exact hd
+    · unfold C02.layoutPars
+      rw [List.map_map, List.map_map]
+      apply List.map_congr_left
+      intro n _
+      exact C02.carries_layoutPar L K n p s _ hs
+    · exact c02_layout_unique_carrier L hwf K names hn G p s hs
+
+/-- non-vacuity: layout `[ns, fixed → (ecut, -, gamma), floating A → (gamma, ecut, ecut), floating B → (-, gamma, -)]`,
+PDF set names `[ecut, gamma]`: for fit parameter 1 (= A) both local parameters carry it for different sources — two
+masked overwrites — and the result takes `ecut`'s entries for sources 1, 2 and `gamma`'s for source 0 -/
+example :
+    GradMap.i3Gradient (F := ℤ) 3 [0, 0, 1, 2] 1
+      [{ gp := some [-1, 2, 2], grads := [10, 11, 12, 13] }, { gp := some [2, 3, -1], grads := [20, 21, 22, 23] }]
+      = some [20, 21, 12, 13] := by decide
+
+/-! ### Round 7: `SingleParamFluxPointLikeSourceI3DetSigYield.__call__` — the dictionary keyed by `gpidx - 1` -/
+
+open GradMap in
+/-- the keys of the yield gradient dictionary (`np.unique(gpidx)[> 0] - 1`): `k` is a key iff some source has
+gpidx `k + 1 > 0` — fixed (negative) and unmapped (0) entries never make a key -/
+theorem c02_yield_keys_iff (k : ℤ) (col : List ℤ) : k ∈ yieldKeys col ↔ (k + 1 ∈ col ∧ 0 < k + 1) :=
+  C02R7.mem_yieldKeys k col
+
+open GradMap in
+/-- a consumer (`SrcDetSigYieldWeightsService`) reading `grads[p]` for a fit parameter some source carries gets
+`Y_k · ∂logY_k` at the accepted sources whose gpidx is `p + 1` and zero elsewhere, whatever else is in the column -/
+theorem c02_yield_grad_row {F : Type} [OfNat F 0] [Mul F] (col : List ℤ) (acc : List Bool) (Y dlog : List F)
+    (p : ℕ) (h : (p : ℤ) + 1 ∈ col) :
+    yieldLookup (yieldGradsCode col acc Y dlog) p = some (yieldSpecRow col acc Y dlog p) :=
+  C02R7.yieldLookup_of_carrier col acc Y dlog p h
+
+open GradMap in
+/-- a fit parameter no source carries has no key, and its specification row is zero: skipping it loses nothing -/
+theorem c02_yield_grad_no_key {F : Type} [OfNat F 0] [Mul F] (col : List ℤ) (acc : List Bool) (Y dlog : List F)
+    (p : ℕ) (h : (p : ℤ) + 1 ∉ col) :
+    yieldLookup (yieldGradsCode col acc Y dlog) p = none ∧ ∀ x ∈ yieldSpecRow col acc Y dlog p, x = 0 :=
+  C02R7.yieldLookup_of_no_carrier col acc Y dlog p h
+
+open ParamLayout GradMap in
+/-- **for every well-formed layout** the keys of the yield gradient dictionary are fit-parameter ids
+`0 ≤ k < n_floating` (no `IndexError` / stray key in `a_jk_grads`) -/
+theorem c02_yield_keys_for_every_layout (L : Layout) (hwf : WellFormed L) (K n : ℕ) (k : ℤ)
+    (hk : k ∈ yieldKeys ((List.range K).map (fun s => gpidxField L s n))) :
+    0 ≤ k ∧ k < (nFloating L : ℤ) := by
+  refine C02R7.yieldKeys_in_range _ (nFloating L) ?_ k hk
+  intro g hg
+  obtain ⟨s, _, rfl⟩ := List.mem_map.mp hg
+  exact c02_layout_keys_in_range L hwf s n
+
+example : GradMap.yieldKeys [3, 0, 1, 3, -1] = [0, 2] := by decide
+example : GradMap.yieldLookup (GradMap.yieldGradsCode (F := ℤ) [3, 0, 1, 3, -1] [true, true, false, true, true]
+    [5, 5, 0, 5, 5] [2, 2, 2, 2, 2]) 2 = some [10, 0, 0, 10, 0] := by decide
+
+/-! ### Round 7: the constants of the consumers' rule, regenerated from the current source -/
+
+/-- **The modelled rule is the rule of the current source**: the comparison `gpidx == fitparam_id + 1` of
+`SignalMultiDimGridPDFSet.get_pd` and `SplinedI3EnergySigSetOverBkgPDFRatio.get_gradient` and the key arithmetic
+`gfp_idxs[gfp_idxs > 0] - 1`, `gpidx == gfp_idx + 1` of `SingleParamFluxPointLikeSourceI3DetSigYield.__call__`, as read
+from the source by `generated(ctx)`, are the ones `GradMap.srcMaskOf`, `GradMap.yieldKeys`, `GradMap.yieldGradsCode`
+use (a changed offset / comparison operator breaks this lemma, i.e. the build). -/
+theorem c02_consumer_rule_for_current_source :
+    (∀ (col : List ℤ) (p : ℕ), GradMap.srcMaskOf col p = col.map (fun g => g == (p : ℤ) + Gen.C02.sigOffset)) ∧
+    Gen.C02.sigCompareEq = true ∧
+    (∀ (col : List ℤ) (p : ℕ), GradMap.srcMaskOf col p = col.map (fun g => g == (p : ℤ) + Gen.C02.i3Offset)) ∧
+    Gen.C02.i3CompareEq = true ∧
+    (∀ col : List ℤ, GradMap.yieldKeys col
+      = ((GradMap.unique col).filter (fun g => Gen.C02.yieldKeyFloor < g)).map (· - Gen.C02.yieldKeyShift)) ∧
+    Gen.C02.yieldKeyFloorStrict = true ∧ Gen.C02.yieldMaskOffset = 1 ∧ Gen.C02.yieldMaskCompareEq = true ∧
+    Gen.C02.yieldKeyShift = Gen.C02.yieldMaskOffset ∧ Gen.C02.sigOffset = Gen.C02.yieldMaskOffset :=
+  ⟨fun _ _ => rfl, rfl, fun _ _ => rfl, rfl, fun _ => rfl, rfl, rfl, rfl, rfl, rfl⟩
+
+open GradMap in
+/-- **the yield gradient row is the consumers' rule**: with `values = exp(log spline)` inside the acceptance and 0
+outside, the row keyed `p` is, source by source, `Grad.locToFit [gpidx_k] [Y_k · ∂logY_k] p` — the quantity
+`Grad.stDaRow` feeds into `a_jk_grads` (the acceptance test of the coded mask is redundant) -/
+theorem c02_yield_row_is_consumers_rule (col : List ℤ) (acc : List Bool) (Yin dlog : List ℝ) (p : ℕ)
+    (ha : acc.length = col.length) (hy : Yin.length = col.length) (hd : dlog.length = col.length) :
+    yieldSpecRow col acc (yieldValues acc Yin) dlog p =
+      List.zipWith (fun g (yd : ℝ × ℝ) => Grad.locToFit [g] [yd.1 * yd.2] p) col ((yieldValues acc Yin).zip dlog) :=
+  C02R7.yieldSpecRow_eq_locToFit col acc Yin dlog p ha hy hd
